@@ -180,6 +180,61 @@ def path_stage(ctx, tlgen):
     return st
 
 
+def regen_stage(ctx, tlgen):
+    """The generated package is a function of the schema the tool is GIVEN, not of what its output directory held
+    before or of file dates: `go generate` is run again whenever the schema line of telegram/generate.go is switched
+    to another layer, in a directory that holds the previous layer's code.  Two shipped layers A and B: B into a
+    directory that holds A's code (B's file older than that code - a checkout of long ago), A again afterwards, B over
+    files of the same names holding garbage; each time the five files must be exactly those a fresh directory gets."""
+    import shutil
+    import time
+    scratch = ctx.work + "/regen"
+    shutil.rmtree(scratch, ignore_errors=True)
+    os.makedirs(scratch)
+    names = [SHIPPED_INPUT] + [n for n in ("api_117.tl", "api_113.tl", "e2e_121.tl") if os.path.exists(C.REPO + "/schemes/" + n)][:1]
+    st = {"layers": names, "regenerations": 0, "identical": 0}
+    if len(names) < 2:
+        return st
+    long_ago = time.time() - 3600 * 24 * 30
+    refs = {}
+    for n in names:
+        shutil.copy(C.REPO + "/schemes/" + n, scratch + "/" + n)
+        os.utime(scratch + "/" + n, (long_ago, long_ago))
+        d = scratch + "/fresh-" + n
+        os.makedirs(d)
+        rc, o = C.sh([tlgen, scratch + "/" + n, d], cwd=scratch, timeout=300)
+        if rc != 0:
+            raise C.BuildError("tlgen refuses the shipped schema %s: %s" % (n, o[-500:]))
+        refs[n] = {f: open(d + "/" + f, "rb").read() for f in sorted(os.listdir(d))}
+    a, b = names
+    d = scratch + "/reused"
+    os.makedirs(d)
+    steps = [("first generation", a), ("another layer into the directory that holds the first one's code", b),
+             ("back to the first layer", a), ("the same layer twice", a)]
+    for what, n in steps + [("over files of the same names that hold something else", b)]:
+        if what.startswith("over files"):
+            for f in refs[b]:
+                with open(d + "/" + f, "w") as fh:
+                    fh.write("package telegram\n// left by an interrupted run\n")
+            future = time.time() + 3600
+            for f in refs[b]:
+                os.utime(d + "/" + f, (future, future))
+        rc, o = C.sh([tlgen, scratch + "/" + n, d], cwd=scratch, timeout=300)
+        st["regenerations"] += 1
+        cur = {f: open(d + "/" + f, "rb").read() for f in sorted(os.listdir(d))}
+        rep = {"kind": "regeneration", "step": what, "schema": n, "previous_content": "see 'step'",
+               "how": "tlgen %s <dir> where <dir> already holds generated files (schema files dated a month back), compared with tlgen %s <empty dir>" % (n, n)}
+        if rc == 0 and cur == refs[n]:
+            st["identical"] += 1
+        else:
+            C.violation(ctx, "regeneration:stale-or-different-output:" + what.split(" ")[0],
+                        "tlgen %s into a directory that already holds generated code (%s) does not leave the files a fresh directory gets: rc=%d, differing: %s"
+                        % (n, what, rc, [f for f in sorted(set(cur) | set(refs[n])) if cur.get(f) != refs[n].get(f)]),
+                        dict(rep, expected="the files of a fresh generation from " + n, got=(o.strip()[-300:] or "other file contents")))
+    shutil.rmtree(scratch, ignore_errors=True)
+    return st
+
+
 # ---------------------------------------------------------------------------------------------
 # compile + reflect stage
 
@@ -599,6 +654,7 @@ def run(ctx):
     cst = compile_stage(ctx, tlgen, todo, texts, model, meta)
     C.log("compile stage done %.1fs" % (time.time() - t_start))
     cst["input_paths"] = path_stage(ctx, tlgen)
+    cst["regeneration"] = regen_stage(ctx, tlgen)
 
     # report one violation per category first (the first five are printed)
     cats = {}
